@@ -188,16 +188,18 @@ theorem C16_wire_fields_match_source :
       | none => false) = true := by decide +kernel
 
 /-- THE CURVE REGISTRIES ARE THE SOURCE'S: the model's curve ↦ integer maps (used by every COSE_Key
-theorem here and in C18) are, row by row and in source order, the `impl From<_> for ciborium::Value`
+theorem here and in C18) are, row for row (in whatever order the arms are written), the `impl From<_> for ciborium::Value`
 and `impl TryFrom<i128> for _` tables re-extracted from cose_key.rs on every run; consequently
 reading back what was written gives the same curve, for every curve, and nothing else is read. -/
 theorem C16_curve_tables_match_source :
-    Generated.curveToInt =
-      (EC2Curve.all.map fun c => ("EC2Curve".toList.map (·.toNat), c.name.toList.map (·.toNat), c.toNat)) ++
-      (OKPCurve.all.map fun c => ("OKPCurve".toList.map (·.toNat), c.name.toList.map (·.toNat), c.toNat)) ∧
-    Generated.curveOfInt =
-      (EC2Curve.all.map fun c => ("EC2Curve".toList.map (·.toNat), c.toNat, c.name.toList.map (·.toNat))) ++
-      (OKPCurve.all.map fun c => ("OKPCurve".toList.map (·.toNat), c.toNat, c.name.toList.map (·.toNat))) ∧
+    (let exp := (EC2Curve.all.map fun c => ("EC2Curve".toList.map (·.toNat), c.name.toList.map (·.toNat), c.toNat)) ++
+        (OKPCurve.all.map fun c => ("OKPCurve".toList.map (·.toNat), c.name.toList.map (·.toNat), c.toNat))
+     Generated.curveToInt.all (exp.contains ·) && exp.all (Generated.curveToInt.contains ·) &&
+       Generated.curveToInt.length == exp.length) = true ∧
+    (let exp := (EC2Curve.all.map fun c => ("EC2Curve".toList.map (·.toNat), c.toNat, c.name.toList.map (·.toNat))) ++
+        (OKPCurve.all.map fun c => ("OKPCurve".toList.map (·.toNat), c.toNat, c.name.toList.map (·.toNat)))
+     Generated.curveOfInt.all (exp.contains ·) && exp.all (Generated.curveOfInt.contains ·) &&
+       Generated.curveOfInt.length == exp.length) = true ∧
     (∀ c : EC2Curve, c ∈ EC2Curve.all ∧ EC2Curve.ofNat? c.toNat = some c) ∧
     (∀ c : OKPCurve, c ∈ OKPCurve.all ∧ OKPCurve.ofNat? c.toNat = some c) ∧
     (∀ n c, EC2Curve.ofNat? n = some c → c.toNat = n) ∧ (∀ n c, OKPCurve.ofNat? n = some c → c.toNat = n) := by
